@@ -1,0 +1,15 @@
+//go:build verif
+
+package account
+
+import (
+	"github.com/LemoFoundationLtd/lemochain-core/store"
+	"github.com/LemoFoundationLtd/lemochain-core/store/trie"
+)
+
+// VerifState is a read-only view of a StorageCache for the C17 correspondence harness: the two maps
+// (the maps themselves, the harness only reads them), the trie handle (nil = not loaded) and the
+// TrieDatabase (nil until the first GetTrie). Nothing here changes the cache.
+func (cache *StorageCache) VerifState() (cached Storage, dirty Storage, tr *trie.SecureTrie, tdb *store.TrieDatabase) {
+	return cache.cached, cache.dirty, cache.trie, cache.trieDb
+}
